@@ -14,6 +14,7 @@ from ..core import AnalysisError, Loc, Report, Source, norm
 from ..handlers import HandlerFacts, concrete_handlers, stores
 from ..inifront import load_all
 from ..pyfront import ClassInfo, Program, body_without_docstring, dotted, param_names, self_attr
+from ..normalize import canon
 from ..selftest import Edit
 
 ID = "C19"
@@ -42,15 +43,23 @@ GLOBAL_OK_NAMES = {
 }
 
 
+from .c06 import _removed_keys  # noqa: E402
+
+
+def _cm(prog: Program, ci: ClassInfo, name: str) -> Optional[ast.FunctionDef]:
+    """canonical form of a method defined in ci (private helpers inlined, locals propagated)"""
+    fn = ci.methods.get(name)
+    return None if fn is None else canon(prog, ci, fn)
+
+
 def _getstate_tables(prog: Program, ci: ClassInfo, rep: Report) -> None:
-    gs, ss = ci.methods.get("__getstate__"), ci.methods.get("__setstate__")
+    gs, ss = _cm(prog, ci, "__getstate__"), _cm(prog, ci, "__setstate__")
     loc = Loc(ci.file, (gs or ss).lineno, ci.name)
     if gs is None or ss is None:
         rep.ob("R19.1-pair", False, loc, f"{ci.name}: __getstate__/__setstate__",
                "a class that customises pickling must define both directions")
         return
-    removed = {n.slice.value for n in ast.walk(gs) if isinstance(n, ast.Subscript) and isinstance(n.ctx, ast.Del)
-               and isinstance(n.slice, ast.Constant)}
+    removed = _removed_keys(gs)
     added = {t.slice.value for n in ast.walk(gs) if isinstance(n, ast.Assign) for t in n.targets
              if isinstance(t, ast.Subscript) and isinstance(t.slice, ast.Constant) and isinstance(t.value, ast.Name)}
     recreated = set()
@@ -63,10 +72,9 @@ def _getstate_tables(prog: Program, ci: ClassInfo, rep: Report) -> None:
     inh_removed: Set[str] = set()
     inh_recreated: Set[str] = set()
     for b in prog.mro(ci)[1:]:
-        bg, bs = b.methods.get("__getstate__"), b.methods.get("__setstate__")
+        bg, bs = _cm(prog, b, "__getstate__"), _cm(prog, b, "__setstate__")
         if bg is not None:
-            inh_removed |= {n.slice.value for n in ast.walk(bg) if isinstance(n, ast.Subscript) and isinstance(n.ctx, ast.Del)
-                            and isinstance(n.slice, ast.Constant)}
+            inh_removed |= _removed_keys(bg)
         if bs is not None:
             inh_recreated |= {self_attr(t) for n in ast.walk(bs) if isinstance(n, ast.Assign) for t in n.targets if self_attr(t)}
     calls_super_s = any(isinstance(n, ast.Call) and isinstance(n.func, ast.Attribute) and n.func.attr == "__setstate__"
@@ -78,6 +86,8 @@ def _getstate_tables(prog: Program, ci: ClassInfo, rep: Report) -> None:
     # keys consumed
     read = {n.slice.value for n in ast.walk(ss) if isinstance(n, ast.Subscript) and isinstance(n.slice, ast.Constant)
             and isinstance(n.value, ast.Name) and isinstance(n.ctx, ast.Load)}
+    read |= {n.args[0].value for n in ast.walk(ss) if isinstance(n, ast.Call) and isinstance(n.func, ast.Attribute)
+             and n.func.attr in ("pop", "get") and isinstance(n.func.value, ast.Name) and n.args and isinstance(n.args[0], ast.Constant)}
     rep.ob("R19.1-added-are-consumed", added <= read, Loc(ci.file, ss.lineno, f"{ci.name}.__setstate__"),
            f"{ci.name}: extra keys {sorted(added)} / read {sorted(read)}",
            f"extra keys {sorted(added - read)} are put into the pickled state but never read back")
@@ -92,7 +102,7 @@ def _getstate_tables(prog: Program, ci: ClassInfo, rep: Report) -> None:
     if init:
         def ctor_calls(fn):
             return {norm(n.func): norm(n) for n in ast.walk(fn) if isinstance(n, ast.Call) and norm(n.func).startswith("lib.construct")}
-        a, b = ctor_calls(init[1]), ctor_calls(ss)
+        a, b = ctor_calls(canon(prog, ci, init[1])), ctor_calls(ss)
         for f in sorted(set(a) & set(b)):
             rep.ob("R19.1-same-constructor-arguments", a[f] == b[f], Loc(ci.file, ss.lineno, f"{ci.name}.__setstate__"),
                    f"{b[f]}", f"__setstate__ rebuilds the C object with `{b[f]}` but __init__ built it with `{a[f]}`")
@@ -131,7 +141,7 @@ def check_cdata(prog: Program, rep: Report) -> None:
         handle_aliases = {name for name, val in mi.assigns.items() if isinstance(val, ast.Attribute)
                           and norm(val) in ("ffi.new_handle", "ffi.gc", "ffi.new")}
         cattrs: Dict[str, ast.AST] = {}
-        for m in ci.methods.values():
+        for m in [_cm(prog, ci, name) for name in ci.methods]:
             for a in ast.walk(m):
                 if isinstance(a, ast.Assign):
                     v = a.value
@@ -144,11 +154,10 @@ def check_cdata(prog: Program, rep: Report) -> None:
                             cattrs.setdefault(self_attr(t.value), a)
         if not cattrs:
             continue
-        gs, ss = ci.methods.get("__getstate__"), ci.methods.get("__setstate__")
+        gs, ss = _cm(prog, ci, "__getstate__"), _cm(prog, ci, "__setstate__")
         removed = set()
         if gs is not None:
-            removed = {x.slice.value for x in ast.walk(gs) if isinstance(x, ast.Subscript) and isinstance(x.ctx, ast.Del)
-                       and isinstance(x.slice, ast.Constant)}
+            removed = _removed_keys(gs)
         rebuilt = set()
         if ss is not None:
             rebuilt = {self_attr(t) for x in ast.walk(ss) if isinstance(x, ast.Assign) for t in x.targets if self_attr(t)}
